@@ -222,7 +222,7 @@ func registerMore2() {
 		ID: "C01",
 		Explanation: "One inbound message of 1..2 (thorough 1..3) valid requests, each symbolically a call (arbitrary distinct id) or a notification, is run through the real dispatchLocked closure (handler goroutines as engine threads) with symbolic handler outcomes: any result token, *Error with any int32 code, wrapped coded error, context error, unmarshalable result - also for notifications. " +
 			"The single outbound message is parsed back: one response per call, in request order, with that call's id and that handler's outcome; array iff the inbound was an array; nothing for notifications whatever their handlers return; sent after every handler exit (logical clock). C02's harness covers invalid members, C03's the started server.",
-		Bounds:      []string{"batch <= 2 members (thorough 3)", "Concurrency in {1,2}", "delay bound 2", "ids of one batch pairwise different"},
+		Bounds:      []string{"batch <= 3 members (quick: three-member batches only mix successful and unknown-method members; thorough: every outcome)", "Concurrency in {1,2}", "delay bound 2 (thorough 3)", "ids of one batch pairwise different"},
 		Outside:     []string{"several inbound messages in flight at once (C03 harness checks per-request run counts there)", "batches larger than the bound"},
 		Assumptions: append([]string{jsonAssumption, threadAssumption}, commonAssumptions...),
 		Harnesses: []HarnessSpec{
@@ -280,7 +280,8 @@ func registerMore2() {
 		Bounds:      []string{"<= 1 call, <= 2 notifications, <= 1 malformed record before the stop, <= 1 late record", "one stop cause per run", "delay bound 2 (thorough 3), <= 10 threads"},
 		Outside:     []string{"a reader parked forever in a Recv that Close does not unblock and whose peer never closes (the channel's contract)", "Send errors (C05 covers the client side)"},
 		Assumptions: append([]string{jsonAssumption, threadAssumption}, commonAssumptions...),
-		Harnesses:   []HarnessSpec{{Dir: "jrpc2", Name: "Harness_C08_run", Reach: []string{"restarted", "call-cancelled", "late-record"}, Tweak: delays(2, 3)}},
+		Harnesses: []HarnessSpec{{Dir: "jrpc2", Name: "Harness_C08_run", Reach: []string{"restarted", "call-cancelled", "late-record"}, Tweak: delays(2, 3)},
+			{Dir: "jrpc2", Name: "Harness_C09_step", Reach: []string{"push-send-failed", "callback-stopped"}}},
 	})
 	addProp(&PropSpec{
 		ID: "C09",
